@@ -265,16 +265,17 @@ func runC08(c *Ctx) {
 		if os.Getenv("C08_DEBUG") != "" {
 			fmt.Fprintln(os.Stderr, "A2", k, "valOK", okVal)
 		}
+		msg := k + " must derive from the connection or from the Host the client asked for, not from the upstream URL or another header"
 		if okVal && k != "X-Forwarded-Proto" {
-			if d, dep := c08clientDep(val, vctx); dep {
+			if d, dep := c08a2ClientDep(k, val, vctx); dep {
 				okVal = false
+				msg = k + " is generated by fabio to describe the client's real connection, but the value written here is also decided by request header(s) [" + d + "] that the client (or an earlier hop) controls - e.g. a default taken from the claimed scheme (X-Forwarded-Proto / Forwarded proto=) instead of r.TLS: a client on a plain connection that sends 'X-Forwarded-Proto: https' makes fabio tell the upstream " + k + " of a TLS connection; derive it from r.TLS / r.Host / RemoteAddr only"
 				if os.Getenv("C08_DEBUG") != "" {
 					fmt.Fprintln(os.Stderr, "A2", k, "clientDep", d)
 				}
 			}
 		}
-		c.check("C08.A2", w.where()+"|"+k+" describes the client's connection/request", w.instr.Pos(), okVal,
-			k+" must derive from the connection or from the Host the client asked for, not from the upstream URL or another header")
+		c.check("C08.A2", w.where()+"|"+k+" describes the client's connection/request", w.instr.Pos(), okVal, msg)
 	}
 	for _, k := range []string{"X-Real-Ip", "X-Forwarded-Proto", "X-Forwarded-Port", "X-Forwarded-Host"} {
 		if !seenDefault[k] {
@@ -283,8 +284,8 @@ func runC08(c *Ctx) {
 	}
 
 	runC08O1(c, serve, reg, writes)
-	xffDeps := runC08X1(c, serve, reg, writes)
-	runC08X3(c, serve, reg, xffDeps)
+	runC08X1(c, serve, reg, writes)
+	runC08X3(c, serve, reg, writes)
 	runC08A3(c, reg, writes)
 
 	// ---- X2
